@@ -3,8 +3,10 @@
 Runs the REAL sshuttle code inside a simulated boundary:
   client side: sshuttle.client.ondns / onaccept_udp / onaccept_tcp / dns_done / udp_done /
                expire_connections with a real ssnet.Mux on fake files, the real BaseMethod / tproxy
-               Method (recv_udp fed from scripted recvfrom/recvmsg data, send_udp observed at the socket
-               level), a virtual clock, and server->client frames fed through mux.got_packet;
+               Method (recv_udp fed from scripted recvfrom/recvmsg data - recvmsg answers like the kernel: control message
+               cut to the buffer offered, MSG_CTRUNC - send_udp observed at the socket level), a virtual clock, server->client
+               frames fed through mux.got_packet, and the end of TCP flows (noread + nowrite of the real MuxWrapper that
+               onaccept_tcp created: the identifier stays in mux.channels with the value None);
   server side: the REAL server.main loop (with the real ssnet.runonce, Mux.callback/handle, DnsProxy,
                UdpProxy, dns_req/udp_open/udp_req closures and sweeps); select.select, the pipe files,
                socket.socket, getaddrinfo, get_random_nameserver and the clock are scripted.
@@ -18,7 +20,7 @@ import io as real_io
 import select as real_select
 
 CMD = {"Q": 0x420a, "R": 0x420b, "O": 0x420c, "D": 0x420d, "C": 0x420e, "X": 0x420b, "TCPDATA": 0x4206,
-       "TCPCONNECT": 0x4203}
+       "TCPCONNECT": 0x4203, "TCPSTOP": 0x4204, "TCPEOF": 0x4205}
 NET_ERRS = [errno.ECONNREFUSED, errno.ETIMEDOUT, errno.EHOSTUNREACH, errno.ENETUNREACH, errno.EHOSTDOWN,
             errno.ENETDOWN, errno.ECONNABORTED, errno.ECONNRESET]
 OTHER_ERRS = [errno.EPERM, errno.EACCES, errno.EMSGSIZE, errno.ENOBUFS, errno.EINVAL, errno.EADDRNOTAVAIL]
@@ -197,6 +199,143 @@ def _cmsg_for(dst):
     return [(real_socket.SOL_IP, 20, data)]
 
 
+def kernel_recvmsg(payload, cmsgs, src, bufsize, ancbufsize=0, flags=0):
+    """What recvmsg(bufsize, ancbufsize) of a Linux datagram socket returns when the kernel holds the datagram `payload`
+    from `src` with the control messages `cmsgs` (in full): Linux put_cmsg() (net/core/scm.c), one call per message -
+      * fewer than CMSG_LEN(0) bytes left in the control buffer: nothing is stored, MSG_CTRUNC;
+      * header + data do not fit: the DATA IS CUT to the room left, MSG_CTRUNC;
+      * the buffer advances by min(CMSG_SPACE(len(data)), room left);
+    and MSG_TRUNC when the datagram is longer than bufsize.  Coq: Model/Addr.v put_cmsgs (Props/C05.v c05_cmsg4_kernel,
+    c05_cmsg6_kernel, c05_cmsg6_kernel_always_ctrunc).  Compared with the running kernel on loopback sockets by
+    kernel_cmsg_check (every control-buffer size around the boundaries, both families)."""
+    hdr = real_socket.CMSG_LEN(0)
+    room = int(ancbufsize)
+    mflags = real_socket.MSG_TRUNC if len(payload) > bufsize else 0
+    anc = []
+    for lvl, typ, data in cmsgs:
+        if room < hdr:
+            mflags |= real_socket.MSG_CTRUNC
+            continue
+        full = len(data)
+        if hdr + full > room:
+            mflags |= real_socket.MSG_CTRUNC
+            data = data[:room - hdr]
+        anc.append((lvl, typ, bytes(data)))
+        room -= min(real_socket.CMSG_SPACE(full), room)
+    return (payload[:bufsize], anc, mflags, src)
+
+
+def kernel_cmsg_check(sizes=None):
+    """kernel_recvmsg against the running kernel: UDP sockets on 127.0.0.1 / ::1 with IP(V6)_RECVORIGDSTADDR (no
+    privilege needed), one datagram per control-buffer size, recvmsg'd from the real socket and from the fake.
+    Returns {"available": bool, "cases": n, "differences": [...], "ctrunc_v6_at_space24": bool|None, "notes": [...]}"""
+    res = {"available": False, "cases": 0, "differences": [], "ctrunc_v6_at_space24": None, "notes": []}
+    hdr = real_socket.CMSG_LEN(0)
+    sizes = sizes or sorted({0, 1, hdr - 1, hdr, hdr + 1, hdr + 4, hdr + 8, hdr + 15, hdr + 16, hdr + 17, hdr + 23, hdr + 24,
+                             hdr + 25, hdr + 27, hdr + 28, hdr + 29, real_socket.CMSG_SPACE(16), real_socket.CMSG_SPACE(24),
+                             real_socket.CMSG_SPACE(28), 128})
+    for fam, addr, lvl, opt in ((real_socket.AF_INET, "127.0.0.1", real_socket.SOL_IP, 20), (real_socket.AF_INET6, "::1", 41, 74)):
+        for size in sizes:
+            lsn = snd = None
+            try:
+                lsn = real_socket.socket(fam, real_socket.SOCK_DGRAM)
+                lsn.bind((addr, 0))
+                lsn.setsockopt(lvl, opt, 1)
+                lsn.settimeout(2)
+                snd = real_socket.socket(fam, real_socket.SOCK_DGRAM)
+                snd.bind((addr, 0))
+                snd.sendto(b"probe-datagram", lsn.getsockname())
+                bufsize = 8 if size % 2 else 4096
+                got = lsn.recvmsg(bufsize, size)
+                got = (got[0], [(a, b, bytes(c)) for a, b, c in got[1]], got[2], got[3])
+                want = kernel_recvmsg(b"probe-datagram", _cmsg_for(lsn.getsockname()[:2]), snd.getsockname(), bufsize, size)
+            except (OSError, real_socket.timeout) as e:
+                res["notes"].append("real-kernel control-message probe unavailable for %s: %r" % (addr, e))
+                break
+            finally:
+                for x in (lsn, snd):
+                    if x is not None:
+                        x.close()
+            res["available"] = True
+            res["cases"] += 1
+            if got != want:
+                res["differences"].append({"family": int(fam), "ancbufsize": size, "kernel": repr(got), "fake": repr(want)})
+            if fam == real_socket.AF_INET6 and size == real_socket.CMSG_SPACE(24):
+                res["ctrunc_v6_at_space24"] = bool(got[2] & real_socket.MSG_CTRUNC)
+        # several control messages (packet info, hop limit / TTL, traffic class / TOS switched on as well): the full list is
+        # read once with MSG_PEEK into a large buffer, then the same datagram is received into each buffer size
+        extra = ([(real_socket.SOL_IP, 8), (real_socket.SOL_IP, 12), (real_socket.SOL_IP, 13)] if fam == real_socket.AF_INET
+                 else [(41, 49), (41, 51), (41, 66)])
+        for size in sizes + [hdr + 40, 2 * hdr + 40, 3 * hdr + 40, 96, 112]:
+            lsn = snd = None
+            try:
+                lsn = real_socket.socket(fam, real_socket.SOCK_DGRAM)
+                lsn.bind((addr, 0))
+                for l2, o2 in [(lvl, opt)] + extra:
+                    lsn.setsockopt(l2, o2, 1)
+                lsn.settimeout(2)
+                snd = real_socket.socket(fam, real_socket.SOCK_DGRAM)
+                snd.bind((addr, 0))
+                snd.sendto(b"probe-datagram", lsn.getsockname())
+                full = lsn.recvmsg(4096, 1024, real_socket.MSG_PEEK)
+                got = lsn.recvmsg(4096, size)
+                got = (got[0], [(a, b, bytes(c)) for a, b, c in got[1]], got[2], got[3])
+                want = kernel_recvmsg(b"probe-datagram", [(a, b, bytes(c)) for a, b, c in full[1]], snd.getsockname(), 4096, size)
+            except (OSError, real_socket.timeout) as e:
+                res["notes"].append("real-kernel multi-message probe unavailable for %s: %r" % (addr, e))
+                break
+            finally:
+                for x in (lsn, snd):
+                    if x is not None:
+                        x.close()
+            res["cases"] += 1
+            res["multi_message_cases"] = res.get("multi_message_cases", 0) + (1 if len(full[1]) > 1 else 0)
+            if got != want:
+                res["differences"].append({"family": int(fam), "ancbufsize": size, "messages": len(full[1]), "kernel": repr(got),
+                                           "fake": repr(want)})
+    return res
+
+
+def kernel_recv_udp_check():
+    """the REAL tproxy.recv_udp on real loopback sockets of both families with IP(V6)_RECVORIGDSTADDR: the destination
+    it returns must be the address the datagram was sent to (= the listener's own name).  Returns (cases, failures,
+    notes); skipped (0 cases + a note) when the sandbox refuses the sockets."""
+    import sshuttle.methods.tproxy as tproxy
+    cases, bad, notes = 0, [], []
+    for fam, addr, lvl, opt in ((real_socket.AF_INET, "127.0.0.1", real_socket.SOL_IP, tproxy.IP_RECVORIGDSTADDR),
+                                (real_socket.AF_INET6, "::1", tproxy.SOL_IPV6, tproxy.IPV6_RECVORIGDSTADDR)):
+        for payload in (b"", b"x", b"a,b,,c", b"p" * 4096):
+            lsn = snd = None
+            try:
+                lsn = real_socket.socket(fam, real_socket.SOCK_DGRAM)
+                lsn.bind((addr, 0))
+                lsn.setsockopt(lvl, opt, 1)
+                lsn.settimeout(2)
+                snd = real_socket.socket(fam, real_socket.SOCK_DGRAM)
+                snd.bind((addr, 0))
+                snd.sendto(payload, lsn.getsockname())
+                want_dst, want_src = lsn.getsockname()[:2], snd.getsockname()[:2]
+                try:
+                    src, dst, data = tproxy.recv_udp(lsn, 4096)
+                    got = (tuple(src[:2]) if src else src, tuple(dst[:2]) if dst else dst, data)
+                except real_socket.timeout:
+                    raise
+                except Exception as e:
+                    got = "raised %s" % exc_name(e)
+            except (OSError, real_socket.timeout) as e:
+                notes.append("real-kernel recv_udp probe unavailable for %s: %r" % (addr, e))
+                break
+            finally:
+                for x in (lsn, snd):
+                    if x is not None:
+                        x.close()
+            cases += 1
+            if got != (want_src, want_dst, payload):
+                bad.append({"family": int(fam), "dialled": list(want_dst), "source": list(want_src), "payload": hx(payload),
+                            "recv_udp_returned": repr(got)[:300]})
+    return cases, bad, notes
+
+
 class ClientWorld:
     def __init__(self, family):
         self.now = 0
@@ -217,9 +356,10 @@ class FakeListener:
         src, dst, data = self.w.next
         return (data[:bufsize], src)
 
-    def recvmsg(self, bufsize, ancsize):
+    def recvmsg(self, bufsize, ancsize=0, flags=0):
+        # as the kernel answers: the IP(V6)_ORIGDSTADDR message cut to the control buffer offered, MSG_CTRUNC / MSG_TRUNC
         src, dst, data = self.w.next
-        return (data[:bufsize], _cmsg_for(dst), 0, src)
+        return kernel_recvmsg(data, _cmsg_for(dst), src, bufsize, ancsize)
 
     def sendto(self, data, dst):
         if self.w.send_err is not None:
@@ -314,7 +454,9 @@ def _addr_tok(p):
 
 def _client_state(client, mux):
     try:
-        ch = ",".join("%d:%s" % (c, _kind_of(cb)) for c, cb in mux.channels.items() if cb is not None)
+        # identifier order (the code never iterates over mux.channels).  A key whose value is None - what the MuxWrapper of
+        # a finished TCP flow leaves behind - is not listed: for the code it is a free identifier like an absent key
+        ch = ",".join("%d:%s" % (c, _kind_of(cb)) for c, cb in sorted(mux.channels.items()) if cb is not None)
     except Exception:
         ch = _tok(sorted(mux.channels, key=repr))
     try:
@@ -389,6 +531,16 @@ class ClientSession:
                     def accept(self):
                         return FakeTcpSock(fam, dst), ("127.0.0.1", 40000)
                 client.onaccept_tcp(TL(), meth, mux, handlers)
+            elif ev[0] == "K":
+                # the TCP flow on identifier ch is over: the MuxWrapper that onaccept_tcp created does noread() + nowrite()
+                # (what Proxy.callback calls when both directions have ended) and leaves channels[ch] = None behind.
+                # No live TCP flow on ch: nothing to end
+                for h in handlers:
+                    w = getattr(h, "wrap2", None)
+                    if isinstance(w, ssnet.MuxWrapper) and w.channel == ev[1] and mux.channels.get(ev[1]) == w.got_packet:
+                        w.noread()
+                        w.nowrite()
+                        break
             else:
                 _, ch, cmdkey, data, err = ev[:5]
                 world.send_err = err
@@ -422,7 +574,7 @@ class ClientSession:
 
 
 def run_client(method, maxc, family, events):
-    """events: ("D"|"U", now, src, dst|None, payload) | ("T", now, family, dst) |
+    """events: ("D"|"U", now, src, dst|None, payload) | ("T", now, family, dst) | ("K", ch) |
                ("F", ch, cmdkey, payload, None|errno[, stage])
     returns the list of canonical per-step strings (same format as the model driver)"""
     s = ClientSession(method, maxc, family)
@@ -444,6 +596,8 @@ def client_line(fixes, method, maxc, family, events):
             toks.append("%s,%d,%s,%s,%s" % (ev[0], ev[1], addr_s(ev[2]), oaddr_s(ev[3]), hx(ev[4])))
         elif ev[0] == "T":
             toks.append("T,%d,%d,%s" % (ev[1], ev[2], addr_s(ev[3])))
+        elif ev[0] == "K":
+            toks.append("K,%d" % ev[1])
         else:
             toks.append("F,%d,%s,%s" % (ev[1], hx(ev[3]), "ok" if ev[4] is None else str(ev[4])))
     return " ".join(toks)
@@ -766,9 +920,12 @@ def gen_client_script(rng, prop, quick):
             dst = (rng.choice(V6 if v6 else V4), rng.choice([53, 123, 4500, 65535, 0])) if rng.random() < 0.95 else None
             evs.append(("U", now, src, dst, rand_payload(rng)))
             nalloc += 1
-        elif r < wd + wu + 0.07:
+        elif r < wd + wu + 0.09:
             evs.append(("T", now, family, (rng.choice(V6 if v6 else V4), rng.choice([22, 80, 443]))))
             nalloc += 1
+        elif r < wd + wu + 0.16:
+            # a TCP flow ends (no effect when the identifier is not that of a live TCP flow)
+            evs.append(("K", rng.randint(1, max(1, min(maxc, nalloc + 1)))))
         else:
             hi = max(1, min(maxc, nalloc + 1))
             ch = rng.randint(1, hi) if rng.random() < 0.93 else rng.choice([0, maxc, maxc + 1, 65535])
@@ -1146,6 +1303,8 @@ def des_client(d):
             evs.append((e[0], e[1], tuple(e[2]), tuple(e[3]) if e[3] else None, unhx(e[4])))
         elif e[0] == "T":
             evs.append(("T", e[1], e[2], tuple(e[3])))
+        elif e[0] == "K":
+            evs.append(("K", e[1]))
         else:
             evs.append(tuple(["F", e[1], e[2], unhx(e[3])] + list(e[4:])))
     return d["method"], d["maxc"], d["family"], evs
@@ -1789,7 +1948,7 @@ def run_check(ctx, prop):
     # accepts / UDP datagrams / other queries in between, sources sending to several destinations, tiny identifier spaces
     cases += [(m, mc, fam, evs, "flows_handmade") for m, mc, fam, evs in handmade_flow_scripts()]
     for i in range(200 if quick else 3000):
-        profile = (["expiry", "wrap", "expiry"] if prop == "C10" else ["fanout", "expiry", "fanout", "wrap"])[i % (3 if prop == "C10" else 4)]
+        profile = (["expiry", "wrap", "tcpwrap"] if prop == "C10" else ["fanout", "expiry", "tcpwrap", "wrap"])[i % (3 if prop == "C10" else 4)]
         m, mc, fam, evs = gen_flow_script(rng, profile, quick)[:4]
         cases.append((m, mc, fam, evs, "flows_" + profile))
     lines, impls = [], []
@@ -1815,6 +1974,9 @@ def run_check(ctx, prop):
         ctx.count("client_dns_replies_for_pending_query", tr.n.get("dns_replies_for_pending_query", 0))
         ctx.count("client_udp_replies_for_open_association", tr.n.get("udp_replies_for_open_association", 0))
         ctx.count("client_associations_with_2plus_destinations", tr.fanout_sources())
+        for k in ("tcp_flows_finished", "captures_with_finished_tcp_identifiers_free", "captures_where_only_finished_tcp_identifiers_are_free",
+                  "dns_queries_that_must_be_forwarded", "udp_datagrams_that_must_be_forwarded", "allocations_after_wrap"):
+            ctx.count("client_" + k, tr.n.get(k, 0))
         ctx.case(("client", ln), nontrivial=(nd > 0 or len(impl) > 2),
                  sample={"side": "client", "method": m, "max_channel": mc, "events": len(evs), "last_step": impl[-1][:160] if impl else ""})
         if impl != model:
@@ -1907,7 +2069,9 @@ class FlowTracker:
       * a UDP flow is closed by UDP_CLOSE c; a DNS flow is closed by the datagram that answers it, or by expiry:
         Props/C10.v c10_expiry — after an accept event at time t exactly the queries with deadline < t are forgotten.
         An accept event counts as a sweep when it put its own message on the wire (DNS_REQ / UDP_DATA / TCP_CONNECT);
-        TCP flows are never closed by these scripts;
+        a TCP flow is closed when the client has put BOTH TCP_STOP_SENDING and TCP_EOF for its identifier on the wire (both
+        directions shut: Props/C10.v c10_tcp_end_releases_identifier - the identifier is free from then on, although the
+        Mux keeps the key with the value None);
       * between "surely open" and "surely closed" a flow is in LIMBO and nothing is demanded (a query whose 30 s are
         up but which no sweep has met yet; a reply whose delivery was made to fail; a non-reply message on a DNS
         identifier).  Whether the sweep of an event runs before or after its allocation is left to the code.
@@ -1955,8 +2119,22 @@ class FlowTracker:
         outs = parse_outs(st)
         if ev[0] == "F":
             self._message(i, ev, outs)
+        elif ev[0] == "K":
+            self._tcp_end(i, ev, outs)
         else:
             self._accept(i, ev, outs)
+
+    def _tcp_end(self, i, ev, outs):
+        for o in outs:
+            if o[0] != "F":
+                continue
+            ch, cmd = int(o[1]), int(o[2])
+            f = self.flows.get(ch)
+            if f and f["kind"] == "tcp" and f["status"] != ST_CLOSED and cmd in (CMD["TCPSTOP"], CMD["TCPEOF"]):
+                f.setdefault("shut", set()).add(cmd)
+                if f["shut"] == {CMD["TCPSTOP"], CMD["TCPEOF"]}:
+                    f["status"], f["why"] = ST_CLOSED, "TCP flow finished at step %d (TCP_STOP_SENDING + TCP_EOF on the wire)" % i
+                    self.count("tcp_flows_finished")
 
     def _accept(self, i, ev, outs):
         self.t = ev[1] if self.t is None else max(self.t, ev[1])
@@ -1969,6 +2147,14 @@ class FlowTracker:
         # identifier is surely available — the source has an association, or fewer identifiers than MAX_CHANNEL are held
         # by flows that are not surely closed (a flow in limbo counts as holding one)
         busy = sum(1 for f in self.flows.values() if f["status"] != ST_CLOSED)
+        # the identifiers that are free only because a TCP flow on them has finished (the Mux still holds the key)
+        limit = min(self.maxc, 1024)
+        never = limit - len([c for c in self.flows if 1 <= c <= limit])
+        fin_tcp = sum(1 for c, f in self.flows.items() if f["kind"] == "tcp" and f["status"] == ST_CLOSED)
+        if ev[0] in ("D", "U") and busy < limit and fin_tcp:
+            self.count("captures_with_finished_tcp_identifiers_free")
+            if never <= 0 and all(f["kind"] == "tcp" for f in self.flows.values() if f["status"] == ST_CLOSED):
+                self.count("captures_where_only_finished_tcp_identifiers_are_free")
         if ev[0] == "U" and self.method == "T" and ev[3] is not None:
             if tuple(ev[2]) in self.assoc or busy < min(self.maxc, 1024):
                 self.count("udp_datagrams_that_must_be_forwarded")
@@ -1977,13 +2163,17 @@ class FlowTracker:
                 want = ("%s,%d," % (ev[3][0], ev[3][1])).encode() + ev[4][:4096]
                 if [d for c, cmd, d in frames if cmd == CMD["D"]] != [want]:
                     self.bad.append(("udp_datagram_dropped", "step %d: the %d-byte datagram of %r to %r was not put on the "
-                                     "tunnel as exactly one UDP_DATA (header + identical payload): %r"
-                                     % (i, len(ev[4]), tuple(ev[2]), tuple(ev[3]), [(c, cmd, d[:40]) for c, cmd, d in frames])))
+                                     "tunnel as exactly one UDP_DATA (header + identical payload): %r; identifiers held by flows "
+                                     "not surely closed: %d of %d, identifiers of finished TCP flows: %d"
+                                     % (i, len(ev[4]), tuple(ev[2]), tuple(ev[3]), [(c, cmd, d[:40]) for c, cmd, d in frames],
+                                        busy, self.maxc, fin_tcp)))
         if ev[0] == "D" and (self.method == "B" or ev[3] is not None) and busy < min(self.maxc, 1024):
             self.count("dns_queries_that_must_be_forwarded")
             if [d for c, cmd, d in frames if cmd == CMD["Q"]] != [ev[4][:4096]]:
                 self.bad.append(("dns_query_dropped", "step %d: the %d-byte query of %r was not put on the tunnel as exactly one "
-                                 "DNS_REQ with identical payload: %r" % (i, len(ev[4]), tuple(ev[2]), [(c, cmd, d[:40]) for c, cmd, d in frames])))
+                                 "DNS_REQ with identical payload: %r; identifiers held by flows not surely closed: %d of %d, "
+                                 "identifiers of finished TCP flows: %d"
+                                 % (i, len(ev[4]), tuple(ev[2]), [(c, cmd, d[:40]) for c, cmd, d in frames], busy, self.maxc, fin_tcp)))
         closed_here = set()
         for ch, cmd, data in frames:
             f = self.flows.get(ch)
@@ -2086,10 +2276,18 @@ def track_flows(method, maxc, family, evs, steps):
 FLOW_CLAUSES = {
     "C06": {"late_delivered": "c06_late_message_delivered", "dns_reply_lost": "c06_open_flow_lost_its_identifier",
             "udp_reply_lost": "c06_open_flow_lost_its_identifier", "reissued": "c06_identifier_reissued_while_owned",
-            "bad_identifier": "c06_identifier_out_of_range"},
+            "bad_identifier": "c06_identifier_out_of_range",
+            "dns_query_dropped": "c06_dgram_flow_refused_although_an_identifier_was_free",
+            "udp_datagram_dropped": "c06_dgram_flow_refused_although_an_identifier_was_free"},
     "C08": {"dns_reply_lost": "c08_other_flow_broken_after_fault", "udp_reply_lost": "c08_other_flow_broken_after_fault"},
-    "C10": {"dns_reply_lost": "c10_reply_lost_before_30s", "dns_query_dropped": "c10_query_dropped"},
-    "C11": {"second_socket": "c11_shared_socket", "udp_reply_lost": "c11_reply_lost", "udp_datagram_dropped": "c11_datagram_dropped",
+    "C10": {"dns_reply_lost": "c10_reply_lost_before_30s",
+            "dns_query_dropped": "c10_query_dropped: a captured DNS datagram was not put on the tunnel as exactly one DNS_REQ although an "
+                                 "identifier was free (identifiers of answered / expired queries, closed UDP associations and FINISHED "
+                                 "TCP flows are free)"},
+    "C11": {"second_socket": "c11_shared_socket", "udp_reply_lost": "c11_reply_lost",
+            "udp_datagram_dropped": "c11_datagram_dropped: a captured UDP datagram was not put on the tunnel as exactly one UDP_DATA "
+                                    "although its source has an association or an identifier was free (identifiers of closed "
+                                    "associations, answered / expired queries and FINISHED TCP flows are free)",
             "closed_active": "c11_closed_while_active", "idle_not_closed": "c11_idle_not_closed"},
 }
 
@@ -2113,7 +2311,9 @@ def gen_flow_script(rng, profile, quick, fault=None):
     """Life cycles of DNS / UDP / TCP flows on the real client, generated adaptively (the next event is chosen after
     looking at what the real code did): profiles 'expiry' (idle gaps around 30 s, some sources kept alive while others
     expire, late replies), 'wrap' (MAX_CHANNEL 2..6: the cursor comes round to identifiers still owned), 'fanout'
-    (few sources, many destinations).  fault = None | {"mode": "persistent"|"transient", "errno": e, "stage": 0|1}:
+    (few sources, many destinations), 'tcpwrap' (MAX_CHANNEL 2..8, many TCP connections that are accepted and FINISH
+    - the Mux keeps their identifiers as None-valued keys - between the queries / datagrams, so that after the cursor has
+    wrapped the only free identifiers are those of finished TCP flows).  fault = None | {"mode": "persistent"|"transient", "errno": e, "stage": 0|1}:
     the delivery of replies to the victim source (persistent: every one; transient: one) is made to fail.
     Only well-formed events are generated.  Returns (method, maxc, family, evs, steps, tracker, fault_hits)."""
     method = "B" if (profile != "fanout" and rng.random() < 0.2) else "T"
@@ -2121,6 +2321,8 @@ def gen_flow_script(rng, profile, quick, fault=None):
     family = 10 if v6 else 2
     if profile == "wrap":
         maxc = rng.choice([2, 3, 3, 4, 5, 6])
+    elif profile == "tcpwrap":
+        maxc = rng.choice([2, 3, 3, 4, 5, 6, 8])
     else:
         maxc = rng.choice([8, 65535, 65535])
     ips = V6 if v6 else V4
@@ -2134,14 +2336,16 @@ def gen_flow_script(rng, profile, quick, fault=None):
         r = rng.random()
         return b"" if r < 0.12 else bytes([rng.randrange(256)]) if r < 0.24 else tag + rand_payload(rng, False)
     now = rng.choice([0, 100, 1000000])
-    n = rng.randint(8, 22 if quick else 40)
+    n = rng.randint(8, 22 if quick else 40) if profile != "tcpwrap" else rng.randint(12, 30 if quick else 48)
     sess = ClientSession(method, maxc, family)
     tr = FlowTracker(method, maxc, family)
     evs, steps = [], []
     hits = 0
     transient_left = 1 if fault and fault["mode"] == "transient" else 0
     gaps = {"expiry": [0, 1, 5, 10, 15, 20, 29, 30, 31, 31, 45], "wrap": [0, 0, 1, 5, 20, 31, 31],
-            "fanout": [0, 0, 1, 5, 29, 31]}[profile]
+            "fanout": [0, 0, 1, 5, 29, 31], "tcpwrap": [0, 0, 0, 1, 5, 20, 31]}[profile]
+    w_tcp = {"expiry": 0.06, "wrap": 0.12, "fanout": 0.06, "tcpwrap": 0.4}[profile]
+    w_end = {"expiry": 0.03, "wrap": 0.12, "fanout": 0.03, "tcpwrap": 0.32}[profile]
     try:
         for _ in range(n):
             r = rng.random()
@@ -2155,13 +2359,16 @@ def gen_flow_script(rng, profile, quick, fault=None):
                 ch = rng.choice(cls)
             elif r < 0.44:
                 ch = rng.choice([c for c in range(1, min(maxc, 12) + 1)] + [maxc])
-                if tr.flows.get(ch, {}).get("kind") == "tcp":
-                    ch = None
+                if tr.flows.get(ch, {}).get("kind") == "tcp" and tr.flows[ch]["status"] != ST_CLOSED:
+                    ch = None           # a datagram-style message for a live TCP flow is a malformed event
             else:
                 ch = None
-            if ch is not None:
+            tcp_open = tr.pick(ST_OPEN, kinds=("tcp",))
+            if ch is None and tcp_open and rng.random() < w_end:
+                ev = ("K", rng.choice(tcp_open))
+            elif ch is not None:
                 f = tr.flows.get(ch)
-                kind = f["kind"] if f else rng.choice(["dns", "udp"])
+                kind = f["kind"] if f and f["kind"] != "tcp" else rng.choice(["dns", "udp"])
                 if kind == "dns":
                     data, cmdkey = body(b"ans%d" % len(evs)), "R"
                 else:
@@ -2177,12 +2384,12 @@ def gen_flow_script(rng, profile, quick, fault=None):
             else:
                 now += rng.choice(gaps)
                 r2 = rng.random()
-                wu = 0.0 if method == "B" else {"expiry": 0.55, "wrap": 0.35, "fanout": 0.8}[profile]
+                wu = 0.0 if method == "B" else {"expiry": 0.55, "wrap": 0.35, "fanout": 0.8, "tcpwrap": 0.25}[profile]
                 if r2 < wu:
                     live = [s for s in srcs if tuple(s) in tr.assoc]
                     src = rng.choice(live) if live and rng.random() < 0.6 else rng.choice(srcs + srcs[:1])
                     ev = ("U", now, src, (rng.choice(ips), rng.choice([53, 123, 4500, 65535])), body(b"u%d" % len(evs)))
-                elif r2 < wu + 0.06:
+                elif r2 < wu + w_tcp:
                     ev = ("T", now, family, (rng.choice(ips), rng.choice([22, 80, 443])))
                 else:
                     src = rng.choice(srcs) if rng.random() < 0.7 else rand_addr(rng, v6, few=False)
@@ -2240,6 +2447,25 @@ def handmade_flow_scripts():
     out.append(("T", 65535, 2, [("U", 10, A, R, b""), ("U", 10, B, R, b"\0"), ("U", 11, A, S, b""), ("D", 11, C, S, b""),
                                 ("F", 1, "D", b"192.0.2.7,9999,", None), ("F", 2, "D", b"192.0.2.7,9999,,", None),
                                 ("F", 3, "R", b"", None), ("F", 1, "D", b"8.8.8.8,53,x", None)]))
+    # identifiers of FINISHED TCP flows (the Mux keeps them as None-valued keys) are free: (1) every identifier has carried a
+    # TCP connection that is over, then queries / datagrams arrive; (2) one query answered, the rest of the identifier space
+    # used up by TCP connections that come and go, the cursor wraps, three more queries; (3) a TCP flow ends while the other
+    # identifier is held by a pending query: the next query must get the finished flow's identifier, the one after it none
+    W = ("9.9.9.9", 443)
+    for maxc in (2, 3, 5):
+        evs = [("T", 100, 2, W) for _ in range(maxc)] + [("K", c) for c in range(1, maxc + 1)]
+        evs += [("D", 101, A, S, b"after-tcp-1"), ("U", 101, B, R, b"after-tcp-2")] + [("D", 102, C, S, b"after-tcp-3")] * (maxc > 2)
+        evs += [("F", 1, "R", b"answer-1", None), ("F", 2, "D", b"192.0.2.7,9999,reply-2", None)]
+        out.append(("T", maxc, 2, evs))
+        evs = [("D", 10, A, None, b"first"), ("F", 1, "R", b"first-answer", None)]
+        for c in range(2, maxc + 1):
+            evs += [("T", 11, 2, W), ("K", c)]
+        evs += [("D", 12 + k, (A, B, C)[k], None, b"after-wrap-%d" % k) for k in range(min(3, maxc))]
+        evs += [("F", k + 1, "R", b"answer-after-wrap-%d" % k, None) for k in range(min(3, maxc))]
+        out.append(("B", maxc, 2, evs))
+    out.append(("B", 2, 2, [("T", 5, 2, W), ("D", 5, A, None, b"pending"), ("K", 2), ("K", 1), ("D", 6, B, None, b"gets 1"),
+                            ("D", 6, C, None, b"nothing free"), ("F", 1, "R", b"for B", None), ("F", 2, "R", b"for A", None),
+                            ("T", 7, 2, W), ("K", 2), ("T", 7, 2, W), ("K", 1), ("D", 8, C, None, b"again"), ("F", 2, "R", b"for C", None)]))
     out.append(("B", 2, 2, [("D", 10, A, None, b"q1"), ("F", 1, "R", b"r1", None), ("F", 1, "R", b"dup", None),
                             ("D", 11, B, None, b"q2"), ("D", 12, C, None, b"q3"), ("F", 1, "R", b"r3", None),
                             ("F", 2, "R", b"r2", None), ("F", 1, "R", b"late", None), ("D", 50, A, None, b"q4"),
@@ -2267,7 +2493,7 @@ def run_c06_dgram(ctx):
     rng, quick = ctx.rng, ctx.quick()
     cases = [(m, mc, fam, evs, "handmade") + run_flow_script(m, mc, fam, evs) for m, mc, fam, evs in handmade_flow_scripts()]
     for i in range(450 if quick else 8000):
-        profile = ["expiry", "wrap", "expiry", "fanout", "wrap"][i % 5]
+        profile = ["expiry", "wrap", "tcpwrap", "fanout", "wrap"][i % 5]
         m, mc, fam, evs, steps, tr, _ = gen_flow_script(rng, profile, quick)
         cases.append((m, mc, fam, evs, profile, steps, tr))
     for m, mc, fam, evs, kind, steps, tr in cases:
@@ -2892,9 +3118,9 @@ def run_client_main(case):
             src, dst, data = self._take()
             return data[:n], src
 
-        def recvmsg(self, n, anc):
+        def recvmsg(self, n, anc=0, flags=0):
             src, dst, data = self._take()
-            return data[:n], _cmsg_for(dst), 0, src
+            return kernel_recvmsg(data, _cmsg_for(dst), src, n, anc)
 
         def sendto(self, data, dst):
             world.dgrams.append(("via:" + self.label, addr_s(dst), bytes(data)))
